@@ -114,6 +114,12 @@ def configs(tier):
                  data=dict(sizes=[0, 1, 63, 64], push=[1], burst=64, inmodes=["ack", "lost"])),
             dict(name="reconf", mps=2, gap=1, pace=1, gran="xfer", reqs=["SC1", "SC0"], depth=6, pre=["SC1"],
                  data=dict(sizes=[1], push=[1], inmodes=["ack"])),
+            # non-default max_packet_size above 64 (the class documents 256/512; this wire model stays at full speed):
+            # OUT packets around the 64/128/mps boundaries, IN bursts longer than 64 bytes, descriptors re-read
+            dict(name="big-m128", mps=128, gap=1, pace=1, gran="xfer", reqs=["GDC255"], depth=3, pre=["SA33", "SC1"],
+                 data=dict(sizes=[64, 65, 127, 128], push=[], burst=[100, 128], inmodes=["ack"])),
+            dict(name="big-m512", mps=512, gap=1, pace=1, gran="xfer", reqs=["GDC255"], depth=3, pre=["SC1"],
+                 data=dict(sizes=[63, 128, 511, 512], push=[], burst=[300, 512], inmodes=["ack"])),
         ]
     else:
         cs = [
@@ -144,6 +150,13 @@ def configs(tier):
                  data=dict(sizes=[0, 1, 63, 64], push=[0, 1], burst=64, inmodes=["ack", "lost"], rep=1)),
             dict(name="reconf", mps=2, gap=1, pace=1, gran="xfer", reqs=["SC1", "SC0", "SA33"], depth=8, pre=["SC1"],
                  data=dict(sizes=[1, 2], push=[1], inmodes=["ack", "lost"])),
+            # non-default max_packet_size above 64
+            dict(name="big-m128", mps=128, gap=1, pace=1, gran="xfer", reqs=["GDC255", "SLC"], depth=4, pre=["SA33", "SC1"],
+                 data=dict(sizes=[0, 63, 64, 65, 127, 128], push=[1], burst=[65, 128], inmodes=["ack", "lost"], rep=1)),
+            dict(name="big-m256", mps=256, gap=2, pace=1, gran="xfer", reqs=["GDC255"], depth=4, pre=["SC1"],
+                 data=dict(sizes=[64, 65, 127, 128, 255, 256], push=[0], burst=[129, 256], inmodes=["ack", "lost"])),
+            dict(name="big-m512", mps=512, gap=1, pace=1, gran="xfer", reqs=["GDC255"], depth=4, pre=["SA33", "SC1"],
+                 data=dict(sizes=[63, 65, 127, 128, 511, 512], push=[], burst=[300, 512], inmodes=["ack"])),
         ]
     return cs
 
@@ -376,7 +389,8 @@ class AcmSpec(Spec):
                 if mo != "lost" or not configuring: acts.append(("in", mo))
             if d.get("feed"): acts.append(("infeed", d["feed"]))
             for l in d["push"]: acts.append(("push", 1, l))
-            if d.get("burst"): acts.append(("push", d["burst"], 1))
+            b = d.get("burst") or []
+            for n in (b if isinstance(b, list) else [b]): acts.append(("push", n, 1))
             if env.rxq:
                 acts.append(("drain", 1))
                 if len(env.rxq) > 1: acts.append(("drain", 0))
